@@ -5,6 +5,7 @@ import (
 	"fmt"
 	"reflect"
 	"runtime"
+	"strings"
 	"unsafe"
 
 	"github.com/mlange-42/arche/ecs"
@@ -78,7 +79,13 @@ func (x *World) position(q *ecs.Query) map[string]interface{} {
 			tgt = ent(q.Relation(c.id))
 		}
 	}
-	return map[string]interface{}{"e": ent(e), "comps": comps, "alt": alt, "vals": vals, "tgt": tgt, "rel": rel}
+	pos := map[string]interface{}{"e": ent(e), "comps": comps, "alt": alt, "vals": vals, "tgt": tgt, "rel": rel}
+	if x.posExtra != nil {
+		for k, v := range x.posExtra(q) {
+			pos[k] = v
+		}
+	}
+	return pos
 }
 
 // panel exercises a query: Count, EntityAt for every index and out of range, then a walk of Next/Step calls.
@@ -198,6 +205,15 @@ func (x *World) Exec(i int, op Op) map[string]interface{} {
 		panel = x.panel(&qq, op.Walk)
 	}
 
+	isGeneric := false
+	if strings.HasPrefix(op.Api, "generic.") && !strings.HasPrefix(op.Api, "generic.Resource") {
+		var handled bool
+		res, panel, handled = x.execGeneric(op, line, args)
+		isGeneric = handled
+	}
+	if isGeneric {
+		goto done
+	}
 	switch op.Op {
 	case "NewEntity":
 		args["ids"] = nonNil(op.Ids)
@@ -751,6 +767,7 @@ func (x *World) Exec(i int, op Op) map[string]interface{} {
 		panic("unknown op " + op.Op)
 	}
 
+done:
 	line["res"] = map[string]interface{}{"panic": res.panicked, "cls": clsOf(res), "msg": res.msg, "ret": res.ret, "handles": res.handles}
 	evs := make([]interface{}, len(x.events))
 	for k, ev := range x.events {
